@@ -301,9 +301,11 @@ Monitors(n, pre, m, rec, entered, src) ==
                /\ Diff(n, "mon.load.enter", { s \in after \ before : Overridden(s, "enter") }, { s \in Got("enter") : s \notin before })
        ELSE TRUE
     \* C09 : replaying the authority's previousTransitions() on the replica reproduces its configuration
-    /\ IF rec.a[1] = "replay" /\ ~src[1][1]
+    \* (only when what is replayed IS the authority's list - the walks also replay over-long, padded lists - and, for the
+    \* resumable marks, when the authority's step consisted of exactly one round)
+    /\ IF rec.a[1] = "replay" /\ ~src[1][1] /\ ListOf(rec.a) = src[1][2].prev
        THEN /\ Diff(n, "mon.replay.act", src[1][2].act, post.act)
-            /\ IF /\ Len(SelectSeq(src[2], LAMBDA r : r[1] # "noop")) <= 1
+            /\ IF /\ Len(src[2]) = 1
                   /\ \A i \in 1 .. Len(src[2]) : \A j \in 1 .. Len(src[2][i][2]) : src[2][i][2][j][3] # "schedule"
                THEN Diff(n, "mon.replay.res", src[1][2].res, post.res) ELSE TRUE
        ELSE TRUE
